@@ -1098,14 +1098,46 @@ def _name_key(args, node):
     return Val(NKEY, NKEY.sort().mk(*[lift(a, INT) for a in args]))
 
 
+# The records of a name table, as the contracts see them, in two disjoint layers (each key lives in exactly one):
+#   * SLOTS for the keys ufo2ft builds itself — (nameID in 0..22, platform 3, encoding 1 or 10, language 0x409): per key two
+#     scalar fields `h_<id>_<enc>` (record present) and `s_<id>_<enc>` (its string);
+#   * an OVERLAY for every other key: `keyset` (keys present) and `recs` (key -> string).
+# Scalar fields keep the heap terms of the 21 unrolled iterations of setupTable_name small (each field is written once).
+_SLOT_ENCS = (1, 10)
+
+
+def _slot(n, e, kind):
+    return f"{kind}_{n}_{e}"
+
+
+def _name_parts(args):
+    return [lift(a, INT) for a in args]
+
+
+def _slot_form(nid, plat, enc, lang):
+    return z3.And(z3.Or(*[nid == n for n in _NAME_IDS]), plat == 3, z3.Or(*[enc == e for e in _SLOT_ENCS]), lang == 0x409)
+
+
 def _name_getName(ex, st, self, args, kwargs, node):
     """fontTools table__n_a_m_e.getName(nameID, platformID, platEncID, langID): the matching record or None.  ufo2ft
     only tests the result's truthiness (a NameRecord defines neither __bool__ nor __len__): modelled as the Bool
     'a record with that key exists'."""
     if len(args) != 4 or kwargs:
         raise Unsupported("name.getName: expected (nameID, platformID, platEncID, langID)", node)
-    ks = ex.read_field(st, self, "keyset")
-    return Val(BOOL, z3.Select(lift(ks), lift(_name_key(args, node))))
+    nid, plat, enc, lang = _name_parts(args)
+    hits = []
+    for n in _NAME_IDS:
+        if z3.is_false(z3.simplify(nid == n)):
+            continue
+        for e in _SLOT_ENCS:
+            if z3.is_false(z3.simplify(enc == e)):
+                continue
+            hits.append(z3.And(nid == n, plat == 3, enc == e, lang == 0x409, lift(ex.read_field(st, self, _slot(n, e, "h")))))
+    sf = z3.simplify(_slot_form(nid, plat, enc, lang))
+    if not z3.is_true(sf):
+        ks = ex.read_field(st, self, "keyset")
+        hits.append(z3.And(z3.Not(sf), z3.Select(lift(ks), lift(_name_key(args, node)))))
+    return Val(BOOL, z3.simplify(z3.Or(*hits)) if hits else z3.BoolVal(False))
 
 
 def _name_setName(ex, st, self, args, kwargs, node):
@@ -1116,11 +1148,24 @@ def _name_setName(ex, st, self, args, kwargs, node):
     s = ex.deopt(args[0], st, node)
     if s.ty != STR:
         raise Unsupported(f"name.setName with a {s.ty} string", node)
-    k = lift(_name_key(args[1:], node))
-    ks = ex.read_field(st, self, "keyset")
-    recs = ex.read_field(st, self, "recs")
-    ex.write_field(st, self, "keyset", Val(Set(NKEY), z3.Store(lift(ks), k, z3.BoolVal(True))), node)
-    ex.write_field(st, self, "recs", Val(Map(NKEY, STR), z3.Store(lift(recs), k, lift(s))), node)
+    nid, plat, enc, lang = _name_parts(args[1:])
+    for n in _NAME_IDS:
+        if z3.is_false(z3.simplify(z3.And(nid == n, plat == 3, lang == 0x409))):
+            continue
+        for e in _SLOT_ENCS:
+            c = z3.simplify(z3.And(nid == n, plat == 3, enc == e, lang == 0x409))
+            if z3.is_false(c):
+                continue
+            # the merged VALUE is stored (store(H, obj, ite(c, new, old))), not a choice between two heaps
+            oh, os_ = ex.read_field(st, self, _slot(n, e, "h")), ex.read_field(st, self, _slot(n, e, "s"))
+            ex.write_field(st, self, _slot(n, e, "h"), Val(BOOL, z3.simplify(z3.If(c, z3.BoolVal(True), lift(oh)))), node)
+            ex.write_field(st, self, _slot(n, e, "s"), Val(STR, z3.simplify(z3.If(c, lift(s), lift(os_)))), node)
+    sf = z3.simplify(_slot_form(nid, plat, enc, lang))
+    if not z3.is_true(sf) and not ex.entails(st, sf):
+        k = lift(_name_key(args[1:], node))
+        ks, recs = ex.read_field(st, self, "keyset"), ex.read_field(st, self, "recs")
+        ex.write_field(st, self, "keyset", Val(Set(NKEY), z3.If(sf, lift(ks), z3.Store(lift(ks), k, z3.BoolVal(True)))), node)
+        ex.write_field(st, self, "recs", Val(Map(NKEY, STR), z3.If(sf, lift(recs), z3.Store(lift(recs), k, lift(s)))), node)
     return Val.const(None)
 
 
@@ -1128,14 +1173,23 @@ def _native_recs(tbl):
     return {(n.nameID, n.platformID, n.platEncID, n.langID): n.toUnicode() for n in tbl.names}
 
 
+def _is_slot_key(k):
+    return k[0] in _NAME_IDS and k[1] == 3 and k[2] in _SLOT_ENCS and k[3] == 0x409
+
+
 _NAMEC = CLASSES[lib.table_class("name")]
-# the records of the name table: `keyset` = the keys (nameID, platformID, platEncID, langID) present, `recs` = key -> string
 _NAMEC.fields.setdefault("recs", Map(NKEY, STR))
 _NAMEC.fields.setdefault("keyset", Set(NKEY))
+_NAMEC.views.setdefault("recs", lambda tbl: {k: v for k, v in _native_recs(tbl).items() if not _is_slot_key(k)})
+_NAMEC.views.setdefault("keyset", lambda tbl: {k for k in _native_recs(tbl) if not _is_slot_key(k)})
+for _n in _NAME_IDS:
+    for _e in _SLOT_ENCS:
+        _NAMEC.fields.setdefault(_slot(_n, _e, "h"), BOOL)
+        _NAMEC.fields.setdefault(_slot(_n, _e, "s"), STR)
+        _NAMEC.views.setdefault(_slot(_n, _e, "h"), (lambda n, e: lambda tbl: (n, 3, e, 0x409) in _native_recs(tbl))(_n, _e))
+        _NAMEC.views.setdefault(_slot(_n, _e, "s"), (lambda n, e: lambda tbl: _native_recs(tbl).get((n, 3, e, 0x409), ""))(_n, _e))
 _NAMEC.methods.setdefault("getName", _name_getName)
 _NAMEC.methods.setdefault("setName", _name_setName)
-_NAMEC.views.setdefault("recs", _native_recs)
-_NAMEC.views.setdefault("keyset", lambda tbl: set(_native_recs(tbl)))
 
 
 def _ufo_namerec_getitem(ex, st, self, idx, node):
@@ -1155,6 +1209,9 @@ def _newTable_c16(ex, st, args, kwargs, node):
     o = ex.new_object(st, lib.table_class(tag))
     if tag == "name":
         ex.write_field(st, o, "keyset", Val(Set(NKEY), z3.K(NKEY.sort(), z3.BoolVal(False))), node)
+        for n in _NAME_IDS:
+            for e in _SLOT_ENCS:
+                ex.write_field(st, o, _slot(n, e, "h"), Val.const(False), node)
     return o
 
 
@@ -1200,7 +1257,7 @@ contract(
     props=P,
     params={"s": STR},
     returns=BOOL,
-    ensures={"iff": "result == non_bmp(s)"},
+    ensures={"iff": "result == non_bmp_from(s, 0)"},
     canaries={"never": "not result", "first-only": "result == (len(s) > 0 and ord(s[0]) > 65535)"},
     # everything before position i is in the BMP: whether a later character is not decides the answer
     loops={"for c in s": Loop(index="i", invariants={"none-yet": "non_bmp_from(s, 0) == non_bmp_from(s, i)"})},
@@ -1208,15 +1265,20 @@ contract(
     runtime=Runtime(lambda rng, n: ["", "a", "\U0001d518", "ab\U0001f600c", "\uffff", "\U00010000", "\U00010000a", "a\uffff\U00010000"] + ["".join(chr(rng.choice([rng.randint(32, 0x2FF), rng.randint(0xFF00, 0x10100), rng.randint(0x1F000, 0x1F6FF)])) for _ in range(rng.randint(0, 5))) for _ in range(n)], lambda d: {"s": d}),
 )
 
+# The same contract under the NAME `non_bmp` (:= non_bmp_from(s, 0), never unfolded), for callers.  Nothing is assumed beyond the
+# proved contract above: the clause is its postcondition with the definition of the name folded (props=[]; hook step A checks
+# mechanically that the name's definition is literally `return non_bmp_from(s, 0)` and that the proved clause is the unfolded one).
+contract(
+    "ufo2ft.outlineCompiler:_isNonBMP",
+    name="named",
+    props=[],
+    params={"s": STR},
+    returns=BOOL,
+    ensures={"iff": "result == non_bmp(s)"},
+    notes="definitional folding of the proved contract _isNonBMP",
+)
+
 _NAME = "self.otf['name']"
-# NOT registered (prepared work): since the engine joins the paths of every unrolled iteration (R10, done) both variants
-# below execute, and their loop obligations are discharged, but the 21 unrolled iterations leave a heap term (nested
-# ite / store over the table's key -> string map, four python-level paths) on which the solvers need 45 s and more PER
-# postcondition (z3 without extensionality; the others time out at 60 s) — outside the stability budget.  The name records
-# therefore stay under observer O (bounded).  `_isNonBMP`, which the function calls, IS under contract.
-_NAME_PROPS = []
-
-
 @specfn(BOOL, s=STR, i=INT)
 def non_bmp_from(s, i):
     """some character of s at position i or later lies outside the Basic Multilingual Plane"""
@@ -1225,9 +1287,11 @@ def non_bmp_from(s, i):
     return ord(s[i]) > 65535 or non_bmp_from(s, i + 1)
 
 
-@specfn(BOOL, s=STR)
+@specfn(BOOL, opaque=True, s=STR)
 def non_bmp(s):
-    """the string has a character outside the Basic Multilingual Plane (such records use platform encoding 10, else 1)"""
+    """the string has a character outside the Basic Multilingual Plane (such records use platform encoding 10, else 1).
+    A NAME for `non_bmp_from(s, 0)` that the logic never unfolds: callers of `_isNonBMP` only need "the same predicate of the
+    string" (21 unfolded definitions over str.to_code make every obligation of setupTable_name time out)."""
     return non_bmp_from(s, 0)
 
 
@@ -1296,87 +1360,51 @@ def _bkey(n):
     return f"({n}, 3, (10 if non_bmp({_NAME_VALUES[n][0]}) else 1), 1033)"
 
 
-_NAME_ENS = {}
-for _n in _NAME_IDS:
-    # a Windows / English (3, 1|10, 0x409) record per non-empty value, unless an explicit name record has the same key
-    _NAME_ENS[f"built:{_n}"] = (
-        f"implies('name' in self.tables and {_present(_n)} and not any({_rk_is('a', _n)} for a in range(len({_R}))), "
-        f"{_bkey(_n)} in {_KEYS} and {_RECS}[{_bkey(_n)}] == {_NAME_VALUES[_n][0]})"
+def _slot_clause(n):
+    """the record of name ID n: present with the value as its string under the encoding the value demands (10 if it has a
+    character outside the BMP, else 1) and absent under the other encoding; no record at all for an empty / None / elided value"""
+    v = _NAME_VALUES[n][0]
+    h1, s1, h10, s10 = (f"{_NAME}.{_slot(n, e, k)}" for e in _SLOT_ENCS for k in ("h", "s"))
+    return (
+        f"implies({_present(n)} and non_bmp({v}), {h10} and {s10} == {v} and not {h1})"
+        f" and implies({_present(n)} and not non_bmp({v}), {h1} and {s1} == {v} and not {h10})"
+        f" and implies(not {_present(n)}, not {h1} and not {h10})"
     )
-# every explicit name record is there; of several with the same key the last one wins
-_NAME_ENS["records"] = (
-    f"implies('name' in self.tables, all(implies(not any({_rk_same('b', 'a')} for b in range(a + 1, len({_R}))), "
-    f"{_rk('a')} in {_KEYS} and {_RECS}[{_rk('a')}] == {_R}[a]['string']) for a in range(len({_R}))))"
-)
-_NAME_ENS["nothing-else"] = (
-    f"implies('name' in self.tables, all(any({_rk('a')} == k for a in range(len({_R}))) or "
-    + " or ".join(f"({_present(_n)} and k == {_bkey(_n)})" for _n in _NAME_IDS)
-    + f" for k in {_KEYS}))"
-)
+
+
+_NAME_ENS = {f"record:{_n}": f"implies('name' in self.tables, {_slot_clause(_n)})" for _n in _NAME_IDS}
+# no record beyond the Windows / English (3, 1|10, 0x409) ones of the 21 name IDs
+_NAME_ENS["nothing-else"] = f"implies('name' in self.tables, len({_KEYS}) == 0)"
 _NAME_ENS["not-requested"] = "implies('name' not in self.tables, self.otf.get('name') == old(self.otf.get('name')))"
 
-# Variant for a font WITHOUT explicit name records (info.openTypeNameRecords empty or absent — the `requires` is a case
-# split, not a call-site precondition; the other case is the general variant below): the table holds exactly the
-# records built from the info attributes.
+# setupTable_name for a font WITHOUT explicit name records (info.openTypeNameRecords empty or absent — this `requires` is a
+# case split, not a call-site precondition; the other case, explicit records overriding / adding records, is covered by
+# observer O only): the table holds exactly the records built from the info attributes.
+_NAME_PROPS = P
 contract(
     "ufo2ft.outlineCompiler:BaseOutlineCompiler.setupTable_name",
     name="c16/no-records",
     props=_NAME_PROPS,
     params={"self": Ref("OutlineCompilerN")},
     requires=[f"len({_R}) == 0"],
-    ensures={
-        **{k: v for k, v in _NAME_ENS.items() if k.startswith("built:")},
-        # the IDs whose value is empty / None (or elided) have no record, and there is no record beyond the built ones
-        "nothing-else": _NAME_ENS["nothing-else"],
-        "not-requested": _NAME_ENS["not-requested"],
-    },
-    canaries={"no-family-name": f"'name' in self.tables and (1, 3, 1, 1033) not in {_KEYS}"},
-    modifies=["TTFont.tbl:name"],
-    ghost_vars={"built": (Opt(Map(NKEY, STR)), "None"), "built_keys": (Set(NKEY), "set()")},
-    ghost={"for nameId in sorted(nameVals.keys()):": ["built = name.recs", "built_keys = name.keyset"]},
-    loops={
-        "for nameRecord in getAttrWithFallback(font.info, 'openTypeNameRecords')": Loop(
-            index="i",
-            # the loop over the (empty) list of explicit records changes nothing
-            invariants={
-                "is-table": "self.otf.get('name') is not None and name == self.otf['name']",
-                "same-keys": "name.keyset == built_keys",
-                "same-strings": "all(name.recs[k] == built[k] for k in built_keys)",
-            },
-        )
-    },
-    models=_NAME_MODELS,
-    globals=G,
-    runtime=Runtime(_table_info_cases(), _table_build(), call=lambda fn, a: fn(a["self"])),
-)
-
-contract(
-    "ufo2ft.outlineCompiler:BaseOutlineCompiler.setupTable_name",
-    name="c16",
-    props=_NAME_PROPS,
-    params={"self": Ref("OutlineCompilerN")},
     ensures=_NAME_ENS,
-    canaries={"no-family-name": f"'name' in self.tables and (1, 3, 1, 1033) not in {_KEYS}"},
-    modifies=["TTFont.tbl:name"],
-    ghost_vars={"built": (Opt(Map(NKEY, STR)), "None"), "built_keys": (Set(NKEY), "set()"), "src": (Dict(NKEY, INT), "{}")},
-    ghost={
-        # after the first loop: the records built from the info attributes
-        "for nameId in sorted(nameVals.keys()):": ["built = name.recs", "built_keys = name.keyset"],
-        # second loop: which explicit record (position) set a key last
-        "nameVal = nameRecord['string']": ["src = {**src, (nameId, platformId, platEncId, langId): i}"],
-    },
+    canaries={"no-family-name": f"'name' in self.tables and not {_NAME}.{_slot(1, 1, 'h')} and not {_NAME}.{_slot(1, 10, 'h')}"},
+    # frame: the font's 'name' entry; the record fields are listed class-wide because the loop over the explicit records (whose
+    # body never runs here) is summarised by an invariant about THIS table only
+    modifies=["TTFont.tbl:name", "table_name.keyset", "table_name.recs"] + [f"table_name.{_slot(_n, _e, _k)}" for _n in _NAME_IDS for _e in _SLOT_ENCS for _k in ("h", "s")],
     loops={
         "for nameRecord in getAttrWithFallback(font.info, 'openTypeNameRecords')": Loop(
             index="i",
+            # the list of explicit records is empty: the loop body never runs, what the first loop built stays
             invariants={
                 "is-table": "self.otf.get('name') is not None and name == self.otf['name']",
-                "records": f"all(implies(not any({_rk_same('b', 'a')} for b in range(a + 1, i)), {_rk('a')} in name.keyset and name.recs[{_rk('a')}] == {_R}[a]['string']) for a in range(i))",
-                "built-kept": f"all(implies(not any({_rk('a')} == k for a in range(i)), k in name.keyset and name.recs[k] == built[k]) for k in built_keys)",
-                "nothing-else": f"all(k in built_keys or (k in src and 0 <= src[k] and src[k] < i and {_rk('src[k]')} == k) for k in name.keyset)",
+                "no-overlay": f"len({_KEYS}) == 0",
+                **{f"record:{_n}": _slot_clause(_n) for _n in _NAME_IDS},
             },
         )
     },
     models=_NAME_MODELS,
+    calls={"ufo2ft.outlineCompiler:_isNonBMP": "ufo2ft.outlineCompiler:_isNonBMP#named"},
     globals=G,
     runtime=Runtime(_table_info_cases(), _table_build(), call=lambda fn, a: fn(a["self"])),
 )
